@@ -27,6 +27,7 @@ type Result struct {
 	Seed       uint64           `json:"seed"`
 	Index      int              `json:"index"`
 	Tape       []uint32         `json:"tape"`
+	Scale      int              `json:"scale,omitempty"`
 	Violation  *Violation       `json:"violation,omitempty"`
 	Known      map[string]int64 `json:"known,omitempty"`
 	Harness    string           `json:"harness_error,omitempty"`
@@ -51,6 +52,9 @@ type Run struct {
 	Index   int
 	Tape    *Tape
 	Sched   *Sched
+	// Scale widens the bounds engines draw from (1 = quick tier, 2 = thorough tier); part of a run's identity, recorded
+	// in replay files
+	Scale   int
 	Known   map[string]bool // open known-finding signatures for this property
 	Start   time.Time
 	res     *Result
@@ -228,11 +232,19 @@ type Spec struct {
 	Tape  []uint32 // nil = record from Seed
 	Known map[string]bool
 	Trace bool
+	Scale int // 0/1 = quick bounds, 2 = thorough bounds
 }
 
 func Exec(t *testing.T, sp Spec, engine Engine) *Result {
 	prop, seed, rec, known, withTrace := sp.Prop, sp.Seed, sp.Tape, sp.Known, sp.Trace
+	scale := sp.Scale
+	if scale < 1 {
+		scale = 1
+	}
 	res := &Result{Prop: prop, Seed: seed, Index: sp.Index, Stats: map[string]int64{}}
+	if scale > 1 {
+		res.Scale = scale
+	}
 	var tape *Tape
 	if rec != nil {
 		tape = ReplayTape(rec)
@@ -248,7 +260,7 @@ func Exec(t *testing.T, sp Spec, engine Engine) *Result {
 		cryptotest.SetGlobalRandom(t, seed)
 		mathrand.Seed(int64(seed))
 		synctest.Test(t, func(t *testing.T) {
-			r := &Run{T: t, Prop: prop, Seed: seed, Index: sp.Index, Tape: tape, Known: known, Start: time.Now(), res: res, noTr: !withTrace}
+			r := &Run{T: t, Prop: prop, Seed: seed, Index: sp.Index, Tape: tape, Known: known, Start: time.Now(), res: res, noTr: !withTrace, Scale: scale}
 			r.Sched = newSched(r)
 			func() {
 				defer func() {
@@ -312,4 +324,12 @@ func SortedKeys[V any](m map[string]V) []string {
 	}
 	sort.Strings(ks)
 	return ks
+}
+
+// Deep returns quick on the quick tier and thorough on the thorough tier: the upper bound of a range an engine draws from.
+func (r *Run) Deep(quick, thorough int) int {
+	if r.Scale > 1 {
+		return thorough
+	}
+	return quick
 }
